@@ -39,6 +39,19 @@ def carries_error(ret, err):
     return False
 
 
+VALUE_FREE = ('std::convert::num::',)
+
+
+def error_position(ret):
+    if ret is None:
+        return False
+    if is_agg(ret, None, 'Err'):
+        return True
+    if is_agg(ret, None, 'Some'):
+        return error_position(agg_field(ret, '0'))
+    return False
+
+
 def fallible_sites(F, f, **kw):
     I = absint.Interp(F, inline=modular_inline, **kw)
     try:
@@ -89,6 +102,11 @@ def check(ctx, F, rule, fns, whitelist=(), require_no_panic=True):
                         bad.append("a path panics after the failure")
                     continue
                 if p.status != 'return':
+                    continue
+                if what.startswith(VALUE_FREE):
+                    # a failed integer conversion carries no information beyond "failed": any error return reports it
+                    if not error_position(p.ret):
+                        bad.append("returns %s" % absint.term_str(p.ret)[:160])
                     continue
                 if not carries_error(p.ret, ('err', site)):
                     bad.append("returns %s" % absint.term_str(p.ret)[:160])
